@@ -37,10 +37,11 @@ ASSUMPTIONS = [
     "sqrt and ** are generated in text mode only with results that stay rational (small literal exponents)",
     "bindings are positive integers (dimension sizes)",
 ]
-CASE_TIMEOUT = 20  # SymPy's simplify() occasionally needs minutes on a nested floor/Mod/Max tree: inconclusive, not a verdict
-BUDGET = {"quick": (16, 1200), "thorough": (16, 20000)}
+CASE_TIMEOUT = 6  # SymPy's simplify() occasionally needs minutes on a nested floor/Mod/Max tree: inconclusive, not a verdict
+BUDGET = {"quick": (16, 900), "thorough": (16, 20000)}
 
-SYMS = ["N", "M", "batch", "a.b", "seq_len"]
+# (dimension names may coincide with the parser's function names: an identifier is a call only when '(' follows)
+SYMS = ["N", "M", "batch", "a.b", "seq_len", "max", "floor", "mod"]
 # leaves built from a SymPy symbol (SymbolicDim accepts sympy.Expr): assumptions other than the parser's own
 FLAVOURS = {"plain": {}, "integer": {"integer": True}, "posint": {"integer": True, "positive": True},
             "nonneg": {"integer": True, "nonnegative": True}}
@@ -66,7 +67,7 @@ def strategy(tier, phase):
         st.sampled_from(SYMS).map(lambda s: ["sym", s]),
         st.tuples(st.sampled_from(SYMX), st.sampled_from(sorted(FLAVOURS))).map(lambda t: ["symx", t[0], t[1]]),
     )
-    small = st.integers(1, 9)
+    small = st.one_of(st.integers(1, 9), st.integers(1, 9), st.integers(-7, -1))  # int operands of either sign
 
     def extend(children):
         return st.one_of(
@@ -78,8 +79,22 @@ def strategy(tier, phase):
             st.tuples(st.sampled_from(["min", "max"]), children, small.map(lambda k: ["int", k])).map(list),
         )
 
-    tree = st.recursive(sym, extend, max_leaves=10)
-    bind = st.fixed_dictionaries({s: st.integers(1, 64) for s in sorted(set(SYMS) | set(SYMX))})
+    # leaf-sized templates: rounding of a quotient whose sign is open, round((a - b) / k) and (a - b) // k, (a - b) % k,
+    # so that negative fractions reach the rounding operators regularly without growing the expression
+    other = st.one_of(sym, st.integers(1, 40).map(lambda k: ["int", k]))
+    diff = st.tuples(st.just("sub"), sym, other).map(list)
+    kk = st.integers(2, 7).map(lambda k: ["int", k])
+    template = st.one_of(
+        st.tuples(st.sampled_from(["floor", "ceil", "trunc", "trunc"]), st.tuples(st.just("truediv"), diff, kk).map(list)).map(list),
+        st.tuples(st.sampled_from(["floordiv", "mod"]), diff, kk).map(list),
+        # chained divisions whose second divisor is negative, of open sign, or a fraction: (a // k) // (b - c), a // k // -3 ...
+        st.tuples(st.sampled_from(["floordiv", "floordiv", "mod", "truediv"]),
+                  st.tuples(st.sampled_from(["floordiv", "floor", "mod"]), st.one_of(sym, st.tuples(st.just("truediv"), sym, kk).map(list)), kk).map(lambda t: list(t) if t[0] != "floor" else ["floor", ["truediv", t[1], t[2]]]),
+                  st.one_of(diff, st.integers(-5, -1).map(lambda k: ["int", k]), st.tuples(st.just("truediv"), sym, kk).map(list))).map(list),
+    )
+    tree = st.recursive(st.one_of(sym, sym, sym, template), extend, max_leaves=10)
+    size = st.one_of(st.integers(1, 4), st.integers(1, 64))  # small sizes often: differences change sign
+    bind = st.fixed_dictionaries({s: size for s in sorted(set(SYMS) | set(SYMX))})
     ops_case = st.fixed_dictionaries({"mode": st.just("ops"), "tree": tree, "bind": bind})
     text_case = st.fixed_dictionaries({"mode": st.just("text"), "text": _text_strategy(), "bind": bind})
     return st.one_of(ops_case, text_case)
@@ -116,6 +131,9 @@ def _fdiv(a, b):
     return Fraction(a) / Fraction(b)
 
 
+SEEN = set()  # value classes met by the reference evaluation of the current case
+
+
 def ref_eval(tree, env):
     k = tree[0]
     if k in ("sym", "symx"):
@@ -124,6 +142,8 @@ def ref_eval(tree, env):
         return Fraction(tree[1])
     if k in ("neg", "floor", "ceil", "trunc"):
         x = ref_eval(tree[1], env)
+        if k != "neg" and x < 0 and x.denominator != 1:
+            SEEN.add("rounding_of_negative_fraction" if k != "trunc" else "trunc_of_negative_fraction")
         return {"neg": lambda: -x, "floor": lambda: Fraction(math.floor(x)), "ceil": lambda: Fraction(math.ceil(x)),
                 "trunc": lambda: Fraction(math.trunc(x))}[k]()
     a, b = ref_eval(tree[1], env), ref_eval(tree[2], env)
@@ -136,10 +156,14 @@ def ref_eval(tree, env):
     if k == "truediv":
         return _fdiv(a, b)
     if k == "floordiv":
+        if _fdiv(a, b) < 0:
+            SEEN.add("floordiv_negative")
         return Fraction(math.floor(_fdiv(a, b)))
     if k == "mod":
         if b == 0:
             raise Undefined()
+        if a < 0 or b < 0:
+            SEEN.add("mod_negative_operand")
         return a - b * math.floor(a / b)
     if k == "min":
         return min(a, b)
@@ -277,6 +301,7 @@ def execute(case):
     import onnx_ir as ir
 
     mode = case.get("mode")
+    SEEN.clear()
     bind = case.get("bind") or {}
     if any((not isinstance(v, int)) or v < 1 for v in bind.values()):
         return dict(failures=[], nontrivial=False, classes=["malformed"])
@@ -360,6 +385,12 @@ def execute(case):
         except RecursionError:
             return
         except Exception as e:
+            if "simplify" in label and _sympy_simplify_raises(d, type(e)):
+                # SymbolicDim.simplify is sympy.simplify applied to the dimension's expression; when that call itself
+                # fails on an expression that evaluates correctly, nothing was simplified and no evaluation changed -
+                # the statement asks no more of simplification.  Counted, not a verdict.
+                classes.append("sympy_simplify_raises_" + type(e).__name__)
+                return
             fails.append((f"{label}-exc/{origin}/{type(e).__name__}", f"{label} on {desc} with {bind}: {type(e).__name__}: {e}"[:400]))
             return
         if got != ref:
@@ -391,14 +422,26 @@ def execute(case):
         return ir.SymbolicDim(r.value).evaluate(p2)
 
     check("partial-reparsed", partial_reparsed)
-    check("simplify", lambda: d.simplify().evaluate(bind))
+    n_ops = len(ops)
+    if n_ops <= 6:  # SymPy's simplify() needs seconds to minutes on larger floor/Abs/sign/Mod trees
+        check("simplify", lambda: d.simplify().evaluate(bind))
     check("reparse", lambda: ir.SymbolicDim(d.value).evaluate(bind))
 
     def _ev(x):
         return x if isinstance(x, int) else x.evaluate(bind)
 
     check("shape-evaluate", lambda: ir.Shape([d, 3]).evaluate(bind)[0])
-    check("shape-simplify", lambda: _ev(ir.Shape([3, d]).simplify()[1]))
+
+    def shape_partial():
+        r = ir.Shape([d, 3, d]).evaluate(p1)
+        r = r.evaluate(p2)
+        if r[0] != r[2]:
+            raise ValueError(f"two equal dimensions of one shape evaluate differently: {r}")
+        return r[0]
+
+    check("shape-partial", shape_partial)
+    if n_ops <= 4:
+        check("shape-simplify", lambda: _ev(ir.Shape([3, d]).simplify()[1]))
 
     def free_restricted():
         # the symbols the dimension reports as free are exactly the ones a binding has to cover
@@ -426,6 +469,7 @@ def execute(case):
     check("serde", serde_rt)
     if ref.denominator != 1:
         classes.append("non_integer_value")
+    classes.extend(sorted(SEEN))
     return dict(failures=_dedupe(fails), nontrivial=nontrivial, classes=classes)
 
 
@@ -458,6 +502,19 @@ def _pure_sympy(tree, syms):
             "max": lambda: sympy.Max(a, b), "pow": lambda: a ** b}[k]()
 
 
+def _sympy_simplify_raises(d, exc_type):
+    """True iff sympy.simplify, called directly on the expression the dimension holds, raises the same exception."""
+    import sympy
+
+    try:
+        sympy.simplify(d._expr)
+    except exc_type:
+        return True
+    except Exception:
+        return False
+    return False
+
+
 def _pure_sympy_disagrees(tree, bind, ref, got=None, label="evaluate"):
     """True iff SymPy by itself (no onnx_ir code: same symbols, same substitution sequence as the clause `label`
     uses) does not give `ref` - and, when the library's value is known, gives that same wrong value."""
@@ -478,7 +535,7 @@ def _pure_sympy_disagrees(tree, bind, ref, got=None, label="evaluate"):
         s1 = {sym: v for sym, v in full.items() if str(sym) in first}
         s2 = {sym: v for sym, v in full.items() if str(sym) not in first}
         values = [frac(e.subs(full))]
-        if label.startswith("partial"):
+        if label.startswith(("partial", "shape-partial")):
             values.append(frac(e.subs(s1).subs(s2)))
         if label.startswith(("simplify", "shape-simplify")):
             values.append(frac(sympy.simplify(e).subs(full)))
